@@ -227,7 +227,7 @@ def run(ctx):
     n_rec = n_rec_hang = n_rec_tie = 0
     for k, d in rec.items():
         n_rec += 1
-        fam = "control" if ":control:" in k else ("corpus" if k.startswith("corpus") else "polymorphic-recursion")
+        fam = "control" if ":control:" in k else "polymorphic-recursion"
         w = d["watchdog"]
         mm = model_rec.get(k)
         if w == "hang":
